@@ -128,6 +128,23 @@ func (e *jsonEnc) str(v value) {
 			e.lit(jsonQuoteNoHTML(s))
 		}
 	case *sym:
+		if parts, ok := structuredString(s.t); ok {
+			// a concatenation of literals and formatted integers: escape the literals exactly
+			e.parts = append(e.parts, `"`)
+			for _, p := range parts {
+				if p.lit {
+					q := jsonQuote(p.s)
+					if !e.html {
+						q = jsonQuoteNoHTML(p.s)
+					}
+					e.parts = append(e.parts, q[1:len(q)-1])
+				} else {
+					e.parts = append(e.parts, strSym(p.s))
+				}
+			}
+			e.parts = append(e.parts, `"`)
+			return
+		}
 		fn := "json_esc"
 		if !e.html {
 			e.r.declareOnce("json_esc_nohtml", "(declare-fun json_esc_nohtml (String) String)")
@@ -771,4 +788,56 @@ func addJSONIntrinsics(m map[string]intrinsicFn) {
 		}
 		return r.jsonUnmarshal(fr, data, a[1])
 	}
+}
+
+
+type strPart struct {
+	lit bool
+	s   string
+}
+
+// structuredString recognises (str.++ p1 p2 ...) / a single part, where every part is a string
+// literal or a formatted integer (fmt_int t); such strings need escaping only in their literals.
+func structuredString(t string) ([]strPart, bool) {
+	e := parseSexp(t)
+	if e == nil {
+		return nil, false
+	}
+	var parts []strPart
+	var walk func(x *sexp) bool
+	walk = func(x *sexp) bool {
+		if x.list == nil {
+			if len(x.atom) >= 2 && x.atom[0] == '"' {
+				parts = append(parts, strPart{true, parseSmtStr(x.atom)})
+				return true
+			}
+			return false
+		}
+		if len(x.list) == 0 {
+			return false
+		}
+		switch x.list[0].atom {
+		case "str.++":
+			for _, c := range x.list[1:] {
+				if !walk(c) {
+					return false
+				}
+			}
+			return true
+		case "fmt_int":
+			parts = append(parts, strPart{false, x.String()})
+			return true
+		}
+		return false
+	}
+	if !walk(e) {
+		return nil, false
+	}
+	hasSym := false
+	for _, p := range parts {
+		if !p.lit {
+			hasSym = true
+		}
+	}
+	return parts, hasSym
 }
